@@ -68,6 +68,10 @@ def fused_invariants(fused):
             place = sorted(v for v in sub.values() if isinstance(v, str) and v.startswith("_") and v[1:].isdigit())
             if place and int(place[-1][1:]) >= nargs:
                 out.append(("fused-placeholder-unbound", f"_task({i}) uses placeholder {place[-1]} but only {nargs} arguments are passed"))
+            for k_, key in enumerate(task[3:]):
+                if sub.get(key, "<missing>") not in {f"_{j}" for j, other in enumerate(task[3:]) if other == key}:
+                    out.append(("fused-input-bound-to-wrong-position", f"_task({i}): input #{k_} {str(key)[:60]} is bound to {sub.get(key, '<missing>')!r}, expected '_{k_}'"))
+                    break
             if out:
                 break
     return n, out
